@@ -126,6 +126,12 @@ func obligationQuery(o *Obligation) (string, string) {
 				return ctxTerms[i] < ctxTerms[j]
 			})
 		}
+		for i, t := range ctxTerms {
+			if i >= 4 {
+				break
+			}
+			terms = append(terms, t) // loop counters of the code: single-variable hypotheses are instantiated at them too
+		}
 		if len(terms) > 0 {
 			budget := 1500 + 40*len(o.Gen.S.instTerms)
 			for _, a := range o.Gen.S.asserts {
